@@ -71,7 +71,7 @@ def some(v):
 
 NONE = enum("None")
 
-DISCR = {"None": 0, "Some": 1, "Ok": 0, "Err": 1}
+DISCR = {"None": 0, "Some": 1, "Ok": 0, "Err": 1, "Continue": 0, "Break": 1}
 
 
 def z3bool(v):
@@ -280,6 +280,13 @@ class Exec:
         if kind == "zst":
             return ("closure", val, ())
         if kind == "named":
+            m = re.fullmatch(r"[\w:<>, ()&']*::(Ok|Err|Some|None|Continue|Break)(?:\((.*)\))?", val)
+            if m:
+                inner = m.group(2)
+                if inner is None or inner == "":
+                    return ("enum", m.group(1), ())
+                from .mir import parse_const
+                return ("enum", m.group(1), (self.eval_const(parse_const(inner), func),))
             return self.eval_named_const(val, func)
         raise ExecError("const kind " + kind)
 
